@@ -431,7 +431,17 @@ fn gen_num(r: &mut Rng) -> String {
     if !compilable() && r.chance(1, 14) {
         // other spellings of the same numbers: radix prefixes (hex digits a–d only, so that a unit `s`/`ms`/`x` or an `e`
         // cannot be mistaken for a digit), upper-case exponent, leading zeros, many digits, integers beyond 2^24
-        return match r.below(8) {
+        return match r.below(9) {
+            8 => {
+                // a hair above the midpoint of two adjacent binary32 values, the lower one with an even mantissa: correct
+                // rounding goes up, rounding through binary64 first lands on the tie and goes down to even
+                let x = f32::from_bits((((r.below(1 << 22) as u32) << 1) | 0x3F00_0000) + ((r.below(8) as u32) << 23));
+                let y = f32::from_bits(x.to_bits() + 1);
+                let m = (x as f64 + y as f64) / 2.0;
+                let mut t = format!("{:.80}", m);
+                while t.ends_with('0') { t.pop(); }
+                format!("{}{}1", t, "0".repeat(1 + r.below(6) as usize))
+            }
             0 => format!("0x{:x}", r.below(14)),
             1 => format!("0x{}{}", ["a", "1b", "c0", "2d", "10", "ff"][r.below(5) as usize], ""),
             2 => format!("0b{}", ["0", "1", "11", "101", "1_0000"][r.below(5) as usize]),
